@@ -372,8 +372,11 @@ def check_wrap_order(rep, app):
         ok = inner is not None
         if ok:
             src = resolve_src(inner)
-            ok = isinstance(src, ast.Call) and call_name(src) == '_get_all_middlewares' and len(src.args) + len(src.keywords) == 1 and \
-                norm(argn(src, app.func('_get_all_middlewares').params()[0], 0)) == 'self.routes'
+            gps = app.func('_get_all_middlewares').params()
+            extra = [norm(a) for a in list(src.args[1:]) + [k.value for k in src.keywords if k.arg != gps[0]]] if isinstance(src, ast.Call) else []
+            # the routes, optionally together with the application's own middleware list (R13.d judges that part)
+            ok = isinstance(src, ast.Call) and call_name(src) == '_get_all_middlewares' and \
+                norm(argn(src, gps[0], 0)) == 'self.routes' and all(x == 'self.middlewares' for x in extra) and len(extra) <= 1
         ws = wrap_stores(lf, lp)
         wa = wrap_args(app, ws[0][1]) if len(ws) == 1 else None
         ok = ok and wa is not None and isinstance(lp.target, ast.Name) and norm(wa[1]) == lp.target.id and norm(wa[2]) == 'self._dispatch_wsgi'
@@ -465,29 +468,40 @@ def check_collect_middlewares(rep, app):
     gm = app.func('_get_all_middlewares')
     ps = gm.params()
     rets = returns_of(gm)
-    ok = len(rets) == 1 and isinstance(rets[0].value, ast.Name) and len(ps) == 1
+    ok = len(rets) == 1 and isinstance(rets[0].value, ast.Name) and 1 <= len(ps) <= 2
     if ok:
         rv = rets[0].value.id
         init = single_value(gm, rv)
         ok = isinstance(init, ast.List) and not init.elts
         muts = [e for e in effects.effects_in(gm.node) if e.root == rv]
         apps = [e.node for e in muts if e.kind == 'mutcall' and e.method == 'append' and norm(e.target) == rv]
-        ok = ok and len(muts) == 1 and len(apps) == 1 and len(apps[0].args) == 1 and isinstance(apps[0].args[0], ast.Name) and not apps[0].keywords
+        ok = ok and len(muts) == len(apps) and 1 <= len(apps) <= 2 and \
+            all(len(a.args) == 1 and isinstance(a.args[0], ast.Name) and not a.keywords for a in apps)
         if ok:
-            el = apps[0].args[0].id
-            st = stmt_of(app, apps[0])
-            levels = iteration_levels(gm, st)
-            if levels is None:
-                raise AnalysisError('_get_all_middlewares: the iteration around %s is not a nest of for loops / chain.from_iterable / comprehension clauses' % short(st))
-            ok = len(levels) == 2 and levels[1][0] == el and norm(levels[1][1]) == '%s.middlewares' % levels[0][0]
+            nested, flat = [], []
+            for a in apps:
+                el = a.args[0].id
+                st = stmt_of(app, a)
+                levels = iteration_levels(gm, st)
+                if levels is None:
+                    raise AnalysisError('_get_all_middlewares: the iteration around %s is not a nest of for loops / chain.from_iterable / comprehension clauses' % short(st))
+                cs = conds(gm, st)
+                dedup = has_cond(cs, lambda t: norm(t) == '%s not in %s' % (el, rv), True) or \
+                    has_cond(cs, lambda t: norm(t) == '%s in %s' % (el, rv), False)
+                (nested if len(levels) == 2 else flat).append((a, el, st, levels, dedup))
+            ok = len(nested) == 1 and all(d for _, _, _, _, d in nested + flat)
             if ok:
+                a, el, st, levels, _ = nested[0]
+                ok = levels[1][0] == el and norm(levels[1][1]) == '%s.middlewares' % levels[0][0]
                 outer = levels[0][1]
                 base = reversal_of(outer)
-                ok = norm(base if base is not None else outer) == ps[0]
-            cs = conds(gm, st)
-            ok = ok and (has_cond(cs, lambda t: norm(t) == '%s not in %s' % (el, rv), True) or
-                         has_cond(cs, lambda t: norm(t) == '%s in %s' % (el, rv), False))
-    rep.check('R13.b', fkey(gm), ok, 'each route\'s middlewares are walked in order; a type already collected is skipped (first occurrence kept)' if ok else
+                ok = ok and norm(base if base is not None else outer) == ps[0]
+            for a, el, st, levels, _ in flat:
+                # the application's own list, walked directly in list order, before the routes' middlewares
+                ok = ok and len(levels) == 1 and levels[0][0] == el and len(ps) == 2 and norm(levels[0][1]) == ps[1] and \
+                    st.lineno < nested[0][2].lineno
+    rep.check('R13.b', fkey(gm), ok, 'the application\'s and each route\'s middlewares are walked in order; a type already collected is skipped '
+              '(first occurrence kept)' if ok else
               '_get_all_middlewares no longer keeps list order with first-occurrence de-duplication', app, gm.node)
 
 
@@ -829,7 +843,8 @@ def run(rep):
     app = repo.mod(APP)
     st = repo.mod(STATIC)
     rep.decide('R13.a exactly one WSGI delegate per path with untouched (environ, start_response); R13.b wrapper order; '
-               'R13.c opened files handed to the response')
+               'R13.c opened files handed to the response; R13.d application-level middlewares are wrapper sources '
+               'independently of the routes')
     rep.decline('status-line / header validity, close() semantics, bytes-ness of bodies: inside werkzeug')
     rep.assume('werkzeug BaseResponse.__call__ calls start_response exactly once before yielding body bytes and omits the body for HEAD')
     rep.rule('R13.a', 'CFG: every path of _dispatch_wsgi ends in one delegate call with the original parameters')
@@ -839,6 +854,9 @@ def run(rep):
     _group(rep, check_delegation, rep, app)
     _group(rep, check_wrap_order, rep, app)
     _group(rep, check_collect_middlewares, rep, app)
+    rep.rule('R13.d', 'the wrapper sources contain the application-level middlewares whether or not a route is bound')
+    from .c13_wrappers import check_app_level_wrappers
+    _group(rep, check_app_level_wrappers, rep, 'R13.d')
     from .chain import check_middleware_identity
     _group(rep, check_middleware_identity, rep, 'R13.b')
     _group(rep, check_safe_wrap, rep, app)
